@@ -67,7 +67,7 @@ fn run_search<T: Fl>(job: &Job, seed: u64) {
             let step = job.u("qstep").max(1);
             let idx: Vec<usize> = (0..queries.len()).filter(|i| i % step == 0 || *i + 2 >= queries.len()).collect();
             let q = idx[mc::choose(idx.len())];
-            search::search_case::<T>(metric, &data, &queries[q], &Opts { all_radii: false, all_k: job.b("all_k") });
+            search::search_case::<T>(metric, &data, &queries[q], &Opts { all_radii: job.b("all_radii"), all_k: job.b("all_k") });
         }
         other => panic!("unknown job kind {}", other),
     }
@@ -95,9 +95,9 @@ fn run_est<T: Fl>(job: &Job, seed: u64) {
 
 fn heap_model(tier: Tier) -> (heap::HeapModel, usize) {
     if tier.is_thorough() {
-        (heap::HeapModel { ks: vec![1, 2, 3, 4, 5], values: vec![0, 1, 2, 3] }, 9)
+        (heap::HeapModel { ks: vec![1, 2, 3, 4, 5, 6, 7], values: vec![0, 1, 2, 3, 4, 5] }, 11)
     } else {
-        (heap::HeapModel { ks: vec![1, 2, 3, 4], values: vec![0, 1, 2, 3] }, 7)
+        (heap::HeapModel { ks: vec![1, 2, 3, 4, 5], values: vec![0, 1, 2, 3, 4] }, 8)
     }
 }
 
@@ -118,10 +118,12 @@ impl Harness for C04 {
             )
         };
         // ---- 3x3 lattice, every sequence
-        let (lat2_all_metrics, lat2_euclid) = if t { (6, 7) } else { (4, 5) };
+        let (lat2_all_metrics, lat2_manhattan, lat2_euclid) = if t { (6, 6, 7) } else { (4, 5, 5) };
         for n in 1..=lat2_euclid {
             for &metric in &all {
-                if n > lat2_all_metrics && metric != Metric::Euclid {
+                // beyond the all-metrics bound: Euclidean (inexact distances) and, one step less far in
+                // the thorough tier, Manhattan (exact arithmetic)
+                if n > lat2_all_metrics && !(metric == Metric::Euclid || (metric == Metric::Manhattan && n <= lat2_manhattan)) {
                     continue;
                 }
                 match n {
@@ -133,13 +135,13 @@ impl Harness for C04 {
             }
         }
         // ---- 1-D lattice, every sequence
-        let lat1_max = if t { 7 } else { 5 };
+        let lat1_max = if t { 8 } else { 5 };
         for n in 1..=lat1_max {
             for &metric in &all {
-                if n <= 5 {
-                    jobs.push(search_job("lat1", n, metric, &[], false));
-                } else {
-                    (0..5).for_each(|a| jobs.push(search_job("lat1", n, metric, &[a], false)));
+                match n {
+                    1..=5 => jobs.push(search_job("lat1", n, metric, &[], false)),
+                    6 => (0..5).for_each(|a| jobs.push(search_job("lat1", n, metric, &[a], false))),
+                    _ => (0..25).for_each(|a| jobs.push(search_job("lat1", n, metric, &[a / 5, a % 5], false))),
                 }
             }
         }
@@ -183,19 +185,20 @@ impl Harness for C04 {
                         continue;
                     }
                     if n <= est1_max {
+                        // 5 points: Euclidean and Hamming only (the extremes: few ties / almost only ties)
                         if n <= 3 {
                             jobs.push(est_job(est, 1, n, metric, &[], values, false));
-                        } else {
+                        } else if n == 4 {
                             (0..5).for_each(|a| jobs.push(est_job(est, 1, n, metric, &[a], values, false)));
+                        } else if metric == Metric::Euclid || metric == Metric::Hamming {
+                            (0..25).for_each(|a| jobs.push(est_job(est, 1, n, metric, &[a / 5, a % 5], values, false)));
                         }
                     }
                     if n <= est2_max {
                         if n <= 2 {
                             jobs.push(est_job(est, 2, n, metric, &[], values, false));
-                        } else if n == 3 {
-                            (0..9).for_each(|a| jobs.push(est_job(est, 2, n, metric, &[a], values, false)));
                         } else {
-                            (0..81).for_each(|a| jobs.push(est_job(est, 2, n, metric, &[a / 9, a % 9], values, false)));
+                            (0..9).for_each(|a| jobs.push(est_job(est, 2, n, metric, &[a], values, false)));
                         }
                     }
                 }
@@ -208,7 +211,7 @@ impl Harness for C04 {
             }
         }
         // ---- structured larger sets
-        let sizes: &[usize] = if t { &[8, 27, 64, 125, 200] } else { &[8, 27, 64] };
+        let sizes: &[usize] = if t { &[8, 27, 64, 125, 200] } else { &[8, 27, 64, 125] };
         let dims: &[usize] = if t { &[1, 2, 3, 4, 5, 6] } else { &[1, 2, 3, 6] };
         for &n in sizes {
             for &dim in dims {
@@ -217,10 +220,10 @@ impl Harness for C04 {
                         if !t && !(metric == Metric::Euclid || (metric == Metric::Manhattan && dim == 2) || (metric == Metric::Hamming && dim == 3) || (metric == Metric::Mink3 && dim == 6)) {
                             continue;
                         }
-                        let qstep = if t { if n > 64 { 3 } else { 1 } } else if n > 27 { 8 } else { 2 };
+                        let qstep = if t { 1 } else if n > 64 { 6 } else if n > 27 { 3 } else { 1 };
                         jobs.push(Job::new(
                             format!("fam-{}-n{}-d{}-{}", fam, n, dim, metric.name()),
-                            json!({"kind": "fam", "family": fam, "n": n, "dim": dim, "metric": metric.name(), "qstep": qstep, "all_k": t && n <= 64, "f32": false, "seed": seed}),
+                            json!({"kind": "fam", "family": fam, "n": n, "dim": dim, "metric": metric.name(), "qstep": qstep, "all_k": t && n <= 125, "all_radii": t && n <= 64, "f32": false, "seed": seed}),
                         ));
                     }
                 }
@@ -251,13 +254,20 @@ impl Harness for C04 {
                 ("heap_peek_mut_then_heapify", 100),
             ],
             bounds: json!({
-                "lattice_3x3": format!("every sequence of 1..{} points x 25 half-step queries, all 4 metrics; Euclidean up to {} points; f32 up to {} points", lat2_all_metrics, lat2_euclid, if t { 5 } else { 3 }),
+                "lattice_3x3": format!("every sequence of 1..{} points x 25 half-step queries, all 4 metrics; Manhattan up to {} points; Euclidean up to {} points; f32 up to {} points", lat2_all_metrics, lat2_manhattan, lat2_euclid, if t { 5 } else { 3 }),
                 "lattice_1d": format!("every sequence of 1..{} points of {{0..4}} x 11 half-step queries, all 4 metrics", lat1_max),
                 "scale_boundary_alphabet": format!("every sequence of 2..{} points over {} letters (0, 1.3^s and its two floating-point neighbours, s=-2..3) x {} queries; Euclidean and Manhattan", if t { 4 } else { 3 }, nletters, nletters + 1),
                 "per_search_case": "both structures x every k in 0..=n+1 x radii {each distinct realised distance d, next_down(d), next_up(d), midpoints, beyond all, 0, -0, -1}",
-                "structured_sets": format!("families {:?}, n in {:?}, dim in {:?}; queries: data points, midpoints of consecutive points, 2 outside points", FAMILIES, sizes, dims),
-                "estimators": format!("1-D sequences up to {} points, 3x3 sequences up to {} points x every labelling over {:?} / {:?} / targets {:?} x k in 0..=n+1 x 2 weights x 2 structures x all queries of the grid; metrics {:?}", est1_max, est2_max, CLS_LABELS, CLS_LABELS2, REG_TARGETS, est_metrics.iter().map(|m| m.name()).collect::<Vec<_>>()),
-                "heap_selection_e2": if t { "k in 1..5, add(v) v in 0..3, heapify, peek_mut+heapify; depth 9" } else { "k in 1..4, add(v) v in 0..3, heapify, peek_mut+heapify; depth 7" },
+                "structured_sets": format!(
+                    "families {:?}, n in {:?}, dim in {:?}; queries: data points, midpoints of consecutive points, 2 outside points ({}); {}",
+                    FAMILIES,
+                    sizes,
+                    dims,
+                    if t { "all of them" } else { "all for n<=27, every 3rd for n=64, every 6th for n=125" },
+                    if t { "every k in 0..=n+1 for n<=125, for n=200 k in {0,1,2,3,5,8,n/4,n/2,n-2,n-1,n,n+1,n+7}; every realised radius for n<=64, else radii at ranks {0,1,2,3,m/4,m/2,m-2,m-1}" } else { "every k for n<=12, else k in {0,1,2,3,5,8,n/4,n/2,n-2,n-1,n,n+1,n+7}; radii at ranks {0,1,2,3,m/4,m/2,m-2,m-1} of the distinct distances" }
+                ),
+                "estimators": format!("1-D sequences up to {} points (5 points: Euclidean and Hamming only), 3x3 sequences up to {} points x every labelling over {:?} / {:?} / targets {:?} x k in 0..=n+1 x 2 weights x 2 structures x all queries of the grid; metrics {:?}", est1_max, est2_max, CLS_LABELS, CLS_LABELS2, REG_TARGETS, est_metrics.iter().map(|m| m.name()).collect::<Vec<_>>()),
+                "heap_selection_e2": if t { "k in 1..7, add(v) v in 0..5, heapify, peek_mut+heapify; depth 11" } else { "k in 1..5, add(v) v in 0..4, heapify, peek_mut+heapify; depth 8" },
                 "seed_map": format!("coordinates c -> {}*c + {}", seed_map(seed).0, seed_map(seed).1),
             }),
         }
